@@ -104,6 +104,38 @@ def opComps (j : Json) : Except String Json := do
   return Json.mkObj [("comps", nats (components top s)), ("loops", nat (loopNumber top s)),
     ("mms", Json.bool (isMMSpanning top nm ext s)), ("wsum", fl (weightSum top s))]
 
+def opSubsets (j : Json) : Except String Json := do
+  let top ← getTop j
+  let ext ← getNats j "ext"
+  let nm := (top.filter (·.massive)).length
+  let n := top.length
+  let masks := List.range (2 ^ n)
+  let ss := masks.map fun m => Mask.edges n m
+  return Json.mkObj [("comps", Json.arr (ss.map fun s => nats (components top s)).toArray),
+    ("loops", nats (ss.map (loopNumber top))),
+    ("mms", Json.arr (ss.map fun s => Json.bool (isMMSpanning top nm ext s)).toArray),
+    ("wsum", fls (ss.map (weightSum top)))]
+
+/-- the memoised J recursion on the implementation's own generalised dods -/
+def opJfill (j : Json) : Except String Json := do
+  let n ← getNat j "n"
+  let dods ← getFs j "dods"
+  let omega : Mask → Float := fun g => dods.getD g 1.0
+  let memo := (fillJ omega n n (Mask.full n) (List.replicate (2 ^ n) none)).2
+  let spec := (List.range (2 ^ n)).map fun g => jSpec omega n n g
+  return Json.mkObj [("j", fls (memo.map fun o => o.getD (0.0 / 0.0))), ("jspec", fls spec)]
+
+/-- `cached_factor` from its ingredients (Γ values from the real statrs) -/
+def opCached (j : Json) : Except String Json := do
+  let top ← getTop j
+  let D ← getNat j "D"
+  let nl ← getNat j "numLoops"
+  let dod ← getF j "dod"
+  let iTr ← getF j "iTr"
+  let gs ← getFs j "gammas"
+  let G : TGraph Float := { dod := dod, topology := top, numMassive := 0, externals := [], numLoops := nl }
+  return Json.mkObj [("cached", fl (cachedFactor (gammaLookup G gs) G D iTr))]
+
 /-! ### sampler view of the table -/
 
 def getSTable (j : Json) : Except String (STable Float) := do
@@ -268,6 +300,9 @@ def handle (j : Json) : Except String Json := do
   | "decomp" => opDecomp j
   | "graph" => opGraph j
   | "comps" => opComps j
+  | "subsets" => opSubsets j
+  | "jfill" => opJfill j
+  | "cached" => opCached j
   | "edge" => opEdge j
   | "perm" => opPerm j
   | "lmat" => opLmat j
